@@ -22,6 +22,10 @@ META = dict(
 )
 
 
+def replay(ctx, path):
+    return _mempool.replay(ctx, path)
+
+
 def run(ctx):
     binary = ctx.build_adapter("mempool")
     nontrivial = lambda p: any(s.get("rbf") and s["a"][0] == "submit" for s in p["steps"])
